@@ -18,6 +18,9 @@ DecodeReason(e) ==
        ELSE IF e.want.type = "paci" /\ [e.m EXCEPT !.tsci = e.want.tsci] = e.want THEN "tsci_fields"
        ELSE "field_" \o e.want.type
   ELSE IF e.head # IsHead265(e.bytes) THEN "partition_head"
+  \* "to exactly the encoded field values": also on an H265Packet that has decoded payloads of every kind before
+  ELSE IF e.used.res # "ok" THEN "wellformed_payload_rejected_by_used_receiver"
+  ELSE IF e.used.m # e.want THEN "used_receiver_field_" \o e.want.type
   ELSE ""
 Hdr16Reason(e) ==
   LET v == e.v IN
